@@ -1,6 +1,7 @@
 from enum import Enum, auto
 
 from bardolph.controller.units import UnitMode
+from bardolph.lib.symbol import SymbolType
 from bardolph.parser.code_gen import CodeGen
 from bardolph.parser.sub_parser import SubParser
 from bardolph.parser.token import TokenTypes
@@ -189,13 +190,24 @@ class LoopParser(SubParser):
         self.next_token()
         if not self.current_token.is_a(TokenTypes.NAME):
             return self.token_error('Expected name for lights, got "{}"')
+        if not self._assignable(context_stack):
+            return False
         self._light_var = str(self.current_token)
         context_stack.add_variable(self._light_var)
         return self.next_token()
 
+    def _assignable(self, context_stack) -> bool:
+        # A loop variable gets assigned, which a macro doesn't allow.
+        if context_stack.has_symbol_typed(
+                str(self.current_token), SymbolType.MACRO):
+            return self.token_error('Attempt to assign to constant "{}"')
+        return True
+
     def _init_index_var(self, context_stack) -> bool:
         if not self.current_token.is_a(TokenTypes.NAME):
             return self.token_error('Not a variable name: "{}"')
+        if not self._assignable(context_stack):
+            return False
         self._index_var = str(self.current_token)
         context_stack.add_variable(self._index_var)
         return self.next_token()
